@@ -777,3 +777,12 @@ func Go(fn func()) {
 	t.spawnFn = fn
 	t.yield()
 }
+
+// SetResult / Result pass a value from a task to the coordinator without the
+// race detector looking (the hand-off itself is hidden in race mode).
+//
+//go:norace
+func (t *Task) SetResult(v any) { t.Data = v }
+
+//go:norace
+func (t *Task) Result() any { return t.Data }
